@@ -10,6 +10,7 @@ type Spec struct {
 	Run            func(*Ctx)
 	Shards         int      // 0: default (one per core); 1: single process
 	Binary         string   // "": plain build; "race": -race build
+	No386Sample    bool     // true: no sampled 32-bit pass (race build, allocation measurements)
 	Extra386Shards int      // >0: the same workload once more, on this many shards, with a GOARCH=386 build (int and uint are 32 bits wide there)
 	Env            []string // extra environment for the workers
 	Rule           string   // how cases are generated / what counts as non-trivial
@@ -170,7 +171,7 @@ func init() {
 }
 
 func init() {
-	register(&Spec{ID: "C18", Run: RunC18, Binary: "race", Shards: 3, ShardsThorough: 10,
+	register(&Spec{ID: "C18", Run: RunC18, No386Sample: true, Binary: "race", Shards: 3, ShardsThorough: 10,
 		Env:         []string{"GORACE=halt_on_error=0 exitcode=0 log_path=$RUNDIR/race"},
 		Collect:     func(runDir string, rep *h.Report, seed int64) { CollectRaceReports(runDir, rep, "C18", seed) },
 		Rule:        "each shard is one process built with -race at a different GOMAXPROCS (2, 8, 16, ...): 32 goroutines each run a seeded script of 1,500 (quick) / 12,000 (thorough) calls drawn from 30 operations covering the whole API, with goroutine-private Buffer/ValueReader/scratch/destination and SHARED inputs held in read-only pages; pass 1 has no harness synchronisation between calls, pass 2 records which functions were simultaneously active; every call's result hash is compared with the same script replayed sequentially; race reports are read from the detector's log; a case = one concurrent call; all are non-trivial",
@@ -180,7 +181,7 @@ func init() {
 }
 
 func init() {
-	register(&Spec{ID: "C19", Run: RunC19, Shards: 4, Env: []string{"GOMAXPROCS=1"},
+	register(&Spec{ID: "C19", Run: RunC19, No386Sample: true, Shards: 4, Env: []string{"GOMAXPROCS=1"},
 		Rule:        "each case is one successful input for one group of functions: number literals on every conversion path (W6 midpoint neighbours incl. >19-digit and >800-digit slow-path cases, per-row cases, specials, integer boundaries) for the 7 Read* and 7 Decode* numeric functions; literals for ReadBool/ReadNull/DecodeBool and Decode*(null); every byte after 3 whitespace prefixes for NextToken/NextTokenType; W7 string tokens (every escape kind, surrogates, long strings) for ReadStringBytes (spare capacity exactly the input length, empty and non-empty destination) and UnescapeStringContent; W3 valid documents, W4 nestings of depth 3..10,000, W5 long documents and the W1 seeds for SkipValue/SkipValueFast/Valid/HandleArrayValues/HandleObjectValues with a Buffer warmed by the same call and zero-size declining or non-allocating skipping handlers; per (function,input): runtime.MemStats.Mallocs around 20 calls, three times, GC off, GOMAXPROCS=1; violation iff all three runs show >= 20 allocations; PLUS histories: warm-up, then a disturbance of the Buffer (a traversal stopped by a handler error at call 0..3, garbage offsets, truncated / malformed documents, the other functions, re-entrant sharing), then ONE successful call measured alone, the whole history three times, for 5 buffer-taking functions x 13 disturbances x ~140 documents; distinct by input hash / history; all non-trivial",
 		Assumptions: append([]string{"a call that fails is outside the property and is skipped (counted)", "sporadic runtime-internal allocations (fewer than one per call) are tolerated and counted"}, commonAssumptions...),
 		MinEvals:    1000000,
@@ -188,7 +189,7 @@ func init() {
 }
 
 func init() {
-	register(&Spec{ID: "C20", Run: RunC20, Shards: 8, Env: []string{"GOMAXPROCS=1"},
+	register(&Spec{ID: "C20", Run: RunC20, No386Sample: true, Shards: 8, Env: []string{"GOMAXPROCS=1"},
 		Rule:        "cases are (i) growth series: 64 adversarial document families (incl. the 24-shape hint-propagation product grandparent x parent x elder sibling x child) (a large container followed by many small siblings as array elements / object values / two levels down, failing siblings, escapes at every nesting level, many short escaped strings or keys, deep arrays/objects/mixtures up to depth 9,600, flat and long tokens, long runs of \\u escapes and surrogate pairs in values and keys) x 8 entry points (ReadValue, reused ValueReader, Valid and SkipValue with nil/reused buffer, SkipValueFast, Handle*Values with a declining and with a re-entrant decoding handler), each measured with runtime.MemStats.TotalAlloc at n, 2n, 4n; and (ii) histories: 10 large documents x 11 small/failing documents x 9 reused-reader/buffer entry points (incl. mixed entry points on one reader), one large call followed by 300 (quick) / 3,000 (thorough) small calls, each measured separately; GOMAXPROCS=1 and GC off during each measurement make the figures reproducible; every series and history is a distinct non-trivial case",
 		Assumptions: append([]string{"'a fixed constant multiple' is judged with explicit thresholds recorded in the evidence samples: growth ratio < 2.5 over a 4x size step for series allocating >= 256 KB, <= 16 KB per input byte + 1 MB absolutely, and <= 64 bytes per input byte + 8 KB for every small call after the third one following a large document"}, commonAssumptions...),
 		MinEvals:    50000,
